@@ -33,7 +33,9 @@
 template <typename T1, typename T2>
 constexpr auto max(const T1 x, const T2 y) noexcept -> common_t<T1, T2>
 {
-    return (y < x ? x : y);
+    return ( // a NaN argument is treated as missing data (fmin/fmax semantics)
+        x != x ? y : y != y ? x : y < x ? x : y
+    );
 }
 
 #endif
